@@ -573,6 +573,100 @@ case_wsclose(uint64_t idx, void *arg) {
 }
 
 /* ------------------------------------------------------------------------------------------ */
+/* (D) well-formed block-wise requests in hostile order                                          */
+/* A raw peer sends sequences of Block1 / Q-Block1 PUT requests whose block numbers come in any order (losses,
+ * reordering, a sender that never completes): the re-assembly bookkeeping (received-block ranges, body buffer)
+ * must stay inside its bounds, a body handed to the application must be the complete, correct one, and the
+ * endpoint keeps serving. */
+struct dspace {
+  char name[48];
+  int len, nnum, optnum;
+};
+static void
+case_blockseq(uint64_t idx, void *arg) {
+  struct dspace *d = arg;
+  uint64_t x = idx;
+  int last_m0 = (int)(x % 2);
+  x /= 2;
+  int szxvar = (int)(x % 2);
+  x /= 2;
+  int nums[8];
+  for (int i = 0; i < d->len; i++) {
+    nums[i] = (int)(x % (uint64_t)d->nnum);
+    x /= (uint64_t)d->nnum;
+  }
+  ns_init();
+  memset(&S, 0, sizeof S);
+  if (!cs_server_new(&S, COAP_PROTO_UDP) || !cs_client_new(&S, COAP_PROTO_UDP)) {
+    vx_fail("harness:setup", "set-up failed");
+    return;
+  }
+  coap_address_t pa;
+  ns_addr(&pa, 34, 5000);
+  snprintf(mut_desc, sizeof mut_desc, "blockseq");
+  target_k = 0;
+  last_orig_len = 0;
+  int replies_total = 0;
+  for (int i = 0; i < d->len; i++) {
+    struct w_buf w;
+    uint8_t tok[2] = {0x61, (uint8_t)i};
+    int szx = (szxvar && i == 2) ? 1 : 0;
+    int bs = 16 << szx;
+    int m = !(last_m0 && i == d->len - 1);
+    w_begin(&w, d->optnum == 19 ? 1 : 0, 3, (uint16_t)(0x4400 + i), tok, 2);
+    w_opt_add(&w, 11, "put", 3);
+    if (d->optnum == 19)
+      w_opt_uint(&w, 19, (unsigned)(nums[i] << 4 | m << 3 | szx));
+    else
+      w_opt_uint(&w, 27, (unsigned)(nums[i] << 4 | m << 3 | szx));
+    uint8_t pl[32];
+    for (int k = 0; k < bs; k++)
+      pl[k] = cs_pat((size_t)(nums[i] * bs + k));
+    w_payload(&w, pl, (size_t)(m ? bs : bs - 3));
+    int before = ns_total_sent(), calls = S.srv_calls;
+    ns_inject_now(&pa, &S.srv, w.b, w.n);
+    ns_prepare_all();
+    int replies = ns_total_sent() - before;
+    replies_total += replies;
+    while (ns_inflight_count())
+      ns_drop(0);
+    target_k = i;
+    if (replies > 1 && d->optnum != 19)
+      failb(S_BLOCK1, "blockseq:replies", "%d datagrams emitted in answer to one Block1 request (NUM %d)", replies, nums[i]);
+    if (S.srv_calls > calls) {
+      /* the application got a body: with SINGLE_BODY it must be a complete prefix-closed body, correct byte for byte */
+      vxp_count(9, 1);
+      /* a sender that changes the block size, or ends the body (M=0) below a block it sent with M=1, has no
+       * well-defined body: safety and liveness only */
+      int consistent = !szxvar;
+      for (int k = 0; k < i; k++)
+        if (!m && nums[k] > nums[i])
+          consistent = 0;
+      if (!S.srv_put_ok && consistent)
+        failb(S_BLOCK1, "blockseq:body-corrupt", "handler received a body that differs from what was sent (NUM order %d,%d,%d,%d...)", nums[0],
+              d->len > 1 ? nums[1] : -1, d->len > 2 ? nums[2] : -1, d->len > 3 ? nums[3] : -1);
+      int have[16] = {0}, complete = 1;
+      for (int k = 0; k <= i; k++)
+        have[nums[k]] = 1;
+      for (int k = 0; k <= nums[i]; k++)
+        if (!have[k])
+          complete = 0;
+      if (!complete && consistent)
+        failb(S_BLOCK1, "blockseq:incomplete-body-delivered", "handler ran although blocks below NUM %d were never received", nums[i]);
+    }
+  }
+  vxp_count(8, 1);
+  vxp_count(10, (uint64_t)replies_total);
+  /* time passes: partial bodies expire */
+  cs_pump(&S, 300, 400000);
+  if (!cs_canary(&S))
+    failb(S_BLOCK1, "blockseq:canary-lost", "after a hostile block sequence a fresh session's GET /r was not answered");
+  cs_free(&S);
+  ns_fini();
+  vxp_distinct(vx_fnv(nums, sizeof(int) * (size_t)d->len, (uint64_t)(d->optnum * 4 + szxvar * 2 + last_m0)));
+}
+
+/* ------------------------------------------------------------------------------------------ */
 static void
 discard_log(coap_log_t l, const char *m) {
   (void)l;
@@ -620,6 +714,19 @@ main(int argc, char **argv) {
         nbs++;
       }
     }
+  static struct dspace ds[12];
+  int nds = 0;
+  for (int opt = 27; opt >= 19; opt -= 8)
+    for (int l = 1; l <= (T ? 6 : 5); l++) {
+      ds[nds].len = l;
+      ds[nds].nnum = l >= 6 ? 9 : l >= 5 ? (T ? 11 : 9) : 12;
+      ds[nds].optnum = opt;
+      snprintf(ds[nds].name, sizeof ds[nds].name, "blockseq:%s:len%d:num<%d", opt == 27 ? "block1" : "qblock1", l, ds[nds].nnum);
+      nds++;
+    }
+  for (int i = 0; i < nds; i++)
+    if (vxp_replay_if_match(ds[i].name, case_blockseq, &ds[i]))
+      return 0;
   for (int i = 0; i < nas; i++)
     if (vxp_replay_if_match(as[i].name, case_parse, &as[i]))
       return 0;
@@ -646,6 +753,11 @@ main(int argc, char **argv) {
     vxp_enumerate(&c, case_alone, NULL, &st);
     total += st.done;
   }
+  for (int i = 0; i < nds; i++) {
+    struct vxp_config c = {.space = ds[i].name, .total = 4 * ipow(ds[i].nnum, ds[i].len), .chunk = 16};
+    vxp_enumerate(&c, case_blockseq, &ds[i], &st);
+    total += st.done;
+  }
   for (int i = 0; i < nbs; i++) {
     struct vxp_config c = {.space = bs[i].name, .total = (uint64_t)bs[i].nmsgs * (uint64_t)bs[i].maxmut, .chunk = 16};
     vxp_enumerate(&c, case_endpoint, &bs[i], &st);
@@ -665,12 +777,17 @@ main(int argc, char **argv) {
   vx_ev_int("lone_malformed", (long long)vxp_counter(5));
   vx_ev_int("lone_wellformed_mutants", (long long)vxp_counter(6));
   vx_ev_int("ws_close_cases", (long long)vxp_counter(7));
+  vx_ev_int("blockseq_sequences", (long long)vxp_counter(8));
+  vx_ev_int("blockseq_bodies_delivered", (long long)vxp_counter(9));
+  vx_ev_int("blockseq_replies", (long long)vxp_counter(10));
   vx_ev_rule("(A) all byte strings of length <=2 (thorough 3) over 256 values and length 3..5 (thorough 6) over a 20-value boundary alphabet after 27 "
              "header variants (UDP TKL x code, TCP length forms, WS) through coap_pdu_parse + debug printer + all accessors; (B) every single-field "
              "mutation (every truncation, every byte -> 00/FF/+1/-1, every bit of the first 24 bytes, three appendices) of every message of 7 valid "
              "exchanges (GET, async, Block1, Block2, observe, TCP, WebSocket) delivered instead of / in addition to the original, then a canary; every "
              "mutation of 6 lone requests to an idle server (malformed => no handler, <=1 error/RST reply); (C) WebSocket close with a half received "
-             "frame and pending bytes, all splits; distinct = distinct accepted byte strings / mutation descriptors");
+             "frame and pending bytes, all splits; (D) all sequences of 1..5 (thorough 6) well-formed Block1 and Q-Block1 PUT requests from one raw peer with "
+             "block numbers in any order from 0..11 (length 5: 0..8, thorough 0..10; length 6: 0..8), with/without M=0 on the last one, with/without a "
+             "block-size change in the third, against a SINGLE_BODY server: bounds (ASan/UBSan), delivered body complete and correct, canary; distinct = distinct accepted byte strings / mutation descriptors");
   vx_ev_assumption("malformed = rejected by the harness's own RFC 7252 structure parser (wire.h); option-content semantics are not judged");
   vx_ev_assumption("not all byte strings: bounded lengths/alphabets and single mutations per state (double mutations are not enumerated)");
   return vx_finish();
